@@ -39,14 +39,16 @@ pub fn transcript_of(h: &History) -> String {
                 len_ok,
                 end_ok,
                 fully_consumed,
+                tail,
             } => s.push_str(&format!(
-                "Chunk(begin={},len={},[{}],len_ok={},end_ok={},full={})",
+                "Chunk(begin={},len={},[{}],len_ok={},end_ok={},full={},tail=[{}])",
                 begin,
                 announced,
                 fmt_items(items),
                 len_ok,
                 end_ok,
-                fully_consumed
+                fully_consumed,
+                tail.iter().map(|(o, it)| format!("{}:{}", o, fmt_items(&[*it]))).collect::<Vec<_>>().join(",")
             )),
             other => s.push_str(&format!("{:?}", other)),
         }
